@@ -142,11 +142,13 @@ class C15(core.Check):
         out = []
         # big chunks (manual chunking; the automatic chunker never exceeds 128 KiB): an implementation that treats large chunks
         # differently (streaming decompression, buffer reuse) must still verify before it releases
-        bigspecs = [([50000, 1300000, 20000], False, "text"), ([2200000, 30000], True, "mixed"), ([300000, 600000, 100000], False, "license")]
+        bigspecs = [([50000, 1300000, 20000], False, "text"), ([2200000, 30000], True, "mixed"), ([300000, 600000, 100000], False, "license"),
+                    # a chunk whose STORED size exceeds 4 MiB (incompressible content), and runs of byte-identical chunks
+                    ([30000, 4600000, 20000], False, "random"), ([40000, 40000, 40000, 9000], False, "same-text"), ([70000, 70000, 70000], True, "same-text")]
         if not self.quick:
             bigspecs += [([1048576, 1048575, 1048577], False, "text"), ([4000000], True, "text"), ([140000, 131072, 70000, 262144], True, "mixed")]
         for bi, (sizes_, dct, kind) in enumerate(bigspecs):
-            pieces = [gen.content(kind, n, 50 + bi * 7 + j) for j, n in enumerate(sizes_)]
+            pieces = [gen.content(kind if kind != "same-text" else "text", n, 50 + bi * 7 + (j if kind != "same-text" else 0)) for j, n in enumerate(sizes_)]
             seg = []
             for pc in pieces:
                 seg += [len(pc), "e"]
@@ -158,15 +160,20 @@ class C15(core.Check):
             self.count("big_chunk_base_files", 1)
             p = zckref.parse(data)
             big = max(p.chunks[1:], key=lambda c: c["len"])
+            if kind == "same-text":
+                big = p.chunks[2]        # the second member of the run of identical chunks
             a0 = p.header_len + big["start"]
             spots = [a0 + 5, a0 + big["comp_len"] // 3, a0 + big["comp_len"] // 2, a0 + big["comp_len"] - 40, a0 + big["comp_len"] - 2]
             spots += [a0 + r.randrange(big["comp_len"]) for _ in range(3 if self.quick else 40)]
+            if kind == "same-text":
+                c3 = p.chunks[3]
+                spots += [p.header_len + c3["start"] + r.randrange(c3["comp_len"]) for _ in range(3)]
             for pos in spots:
                 bit = r.randrange(8)
-                for sizes in r.sample([[4096], [32768], [100000], [big["len"] + 1], [big["len"] - 1], [7000, 1, 65536]], 2 if self.quick else 4):
+                for sizes in r.sample([[4096], [32768], [100000], [big["len"] + 1], [big["len"] - 1], [7000, 1, 65536]] if big["comp_len"] < 3000000 else [[65536], [1000000], [big["len"] - 1]], 2 if self.quick else 3):
                     out.append({"base": "big%d" % bi, "data": core.b64(data), "pos": pos, "bit": bit, "sizes": sizes, "zh": ctx["zh"], "zh_plain": ctx.get("zh_plain")})
                 out.append({"base": "big%d" % bi, "data": core.b64(data), "pos": pos, "bit": bit, "sizes": [32768], "zh": ctx["zh"], "zh_plain": ctx.get("zh_plain"), "mode": "clear"})
-                out.append({"base": "big%d" % bi, "data": core.b64(data), "pos": pos, "bit": bit, "sizes": r.choice([[4096], [65536]]), "zh": ctx["zh"], "zh_plain": ctx.get("zh_plain"),
+                out.append({"base": "big%d" % bi, "data": core.b64(data), "pos": pos, "bit": bit, "sizes": r.choice([[4096], [65536]]) if big["comp_len"] < 3000000 else [65536], "zh": ctx["zh"], "zh_plain": ctx.get("zh_plain"),
                             "mode": "tamper", "pre": r.choice(["vc", "fv"])})
         per = 40 if self.quick else None
         for b in bases:
